@@ -4,6 +4,7 @@ CONSTANTS
   Part = "algebra"
   L = 3
   Cut = 4
+  Stride = 1
 INVARIANT LawOutDomain
 INVARIANT LawSame
 INVARIANT LawPreserving
